@@ -560,6 +560,56 @@ Qed.
 Lemma level_name_length l : length (level_name l) = 6%nat.
 Proof. destruct l; vm_compute; reflexivity. Qed.
 
+(* ---- Logger::Impl::formatTime: the regenerated formats, lengths and buffer sizes ----------- *)
+
+(* what the formats and lengths of the source must be for the line to have the promised shape;
+   closed by computation on Gen_C17 (an edited format, length, branch or refresh test re-runs it) *)
+Lemma logger_time_gen :
+  cache_refresh_is_ne = true /\
+  (forall d, mini_printf time_format (dt_fields d) = time_text d) /\
+  (forall us, mini_printf us_format_zone [us] = [x2e] ++ fmt_d x30 6 us ++ [x20]) /\
+  (forall us, mini_printf us_format_utc [us] = [x2e] ++ fmt_d x30 6 us ++ [x5a; x20]) /\
+  time_len_zone = 17 /\ time_len_utc = 17 /\ us_len_zone = 8 /\ us_len_utc = 9 /\
+  (17 < Z.to_nat Logging_t_time_size)%nat /\ (1 <= Z.to_nat Logging_errnobuf_size)%nat.
+Proof.
+  split; [reflexivity|]. split; [intros d; reflexivity|]. split; [intros us; reflexivity|].
+  split; [intros us; reflexivity|]. repeat (split; [reflexivity|]).
+  split; apply Nat.ltb_lt; vm_compute; reflexivity.
+Qed.
+
+(* formatTime as the property text reads it (the specification side) *)
+Definition format_time_spec (th : tls) (r : logreq) : tls * list item :=
+  let th' := if lq_seconds r =? lastSecond th then th
+             else mkTLS (lq_seconds r) (time_text (lq_dt r)) in
+  let us := [x2e] ++ fmt_d x30 6 (lq_micros r) ++ (if lq_zone r then [x20] else [x5a; x20]) in
+  (th', [IStr (firstn 17 (t_time th')); IStr us]).
+
+Lemma cached_time_text_eq d : dt_ok d -> cached_time_text d = time_text d.
+Proof.
+  intros Hd. destruct logger_time_gen as [_ [Ht [_ [_ [_ [_ [_ [_ [Hs _]]]]]]]]].
+  unfold cached_time_text. rewrite Ht. apply firstn_all2. rewrite time_text_length by exact Hd.
+  set (n := Z.to_nat Logging_t_time_size) in *. lia.
+Qed.
+
+Lemma format_time_eq th r : dt_ok (lq_dt r) -> 0 <= lq_micros r < 1000000 ->
+  format_time th r = format_time_spec th r.
+Proof.
+  intros Hd Hus. destruct logger_time_gen as [_ [_ [Hz [Hu [L1 [L2 [L3 [L4 _]]]]]]]].
+  unfold format_time, format_time_spec. rewrite cached_time_text_eq by exact Hd.
+  assert (L6 : length (fmt_d x30 6 (lq_micros r)) = 6%nat).
+  { apply fmt_d_length; [lia|]. change (10 ^ Z.of_nat 6) with 1000000. lia. }
+  destruct (lq_zone r).
+  - rewrite L1, L3, Hz. f_equal. f_equal. f_equal. f_equal. apply firstn_all2.
+    rewrite !app_length, L6. cbn. lia.
+  - rewrite L2, L4, Hu. f_equal. f_equal. f_equal. f_equal. apply firstn_all2.
+    rewrite !app_length, L6. cbn. lia.
+Qed.
+
+Lemma format_time_fst th r : dt_ok (lq_dt r) ->
+  fst (format_time th r) = if lq_seconds r =? lastSecond th then th
+                           else mkTLS (lq_seconds r) (time_text (lq_dt r)).
+Proof. intros Hd. unfold format_time. cbn [fst]. rewrite cached_time_text_eq by exact Hd. reflexivity. Qed.
+
 Lemma level_order :
   level_num TRACE < level_num DEBUG < level_num INFO /\
   level_num INFO < level_num WARN < level_num ERROR /\ level_num ERROR < level_num FATAL.
@@ -633,7 +683,8 @@ Section Line.
     dt_ok (lq_dt r) /\
     Forall (fun it => item_ok it = true) (lq_msg r) /\
     (match lq_errno r with Some (e, _) => - 2 ^ 31 <= e < 2 ^ 31 | None => True end) /\
-    - 2 ^ 31 <= lq_line r < 2 ^ 31.
+    - 2 ^ 31 <= lq_line r < 2 ^ 31 /\
+    0 <= lq_micros r < 1000000.       (* time % 1000000 of a time stamp at or after the epoch *)
 
   Lemma int_ok v : - 2 ^ 31 <= v < 2 ^ 31 -> item_ok (IInt TInt v) = true.
   Proof.
@@ -641,10 +692,11 @@ Section Line.
   Qed.
 
   Lemma items_text th r :
-    cache_coherent th r -> dt_ok (lq_dt r) ->
+    cache_coherent th r -> dt_ok (lq_dt r) -> 0 <= lq_micros r < 1000000 ->
     concat (map (item_text fmt_g) (snd (prefix_items th r) ++ lq_msg r ++ suffix_items r)) = line_text r.
   Proof.
-    intros Hc Hdt. unfold prefix_items, format_time, line_text, suffix_items, errno_text, func_text, zone_mark.
+    intros Hc Hdt Hus. unfold prefix_items. rewrite format_time_eq by assumption.
+    unfold format_time_spec, line_text, suffix_items, errno_text, func_text, zone_mark.
     assert (Ht : firstn 17 (t_time (if lq_seconds r =? lastSecond th then th
                                     else mkTLS (lq_seconds r) (time_text (lq_dt r)))) = time_text (lq_dt r)).
     { destruct (Z.eqb_spec (lq_seconds r) (lastSecond th)) as [E|E]; [exact (Hc E)|].
@@ -659,7 +711,8 @@ Section Line.
   Lemma items_ok th r : req_ok r ->
     Forall (fun it => item_ok it = true) (snd (prefix_items th r) ++ lq_msg r ++ suffix_items r).
   Proof.
-    intros [Hdt [Hm [He Hl]]]. unfold prefix_items, format_time, suffix_items. cbn [snd].
+    intros [Hdt [Hm [He [Hl Hus]]]]. unfold prefix_items. rewrite format_time_eq by assumption.
+    unfold format_time_spec, suffix_items. cbn [snd].
     repeat first [apply Forall_nil | apply Forall_cons | (apply Forall_app; split)];
       try reflexivity; try assumption; try (apply int_ok; assumption).
     - destruct (lq_errno r) as [[e txt]|];
@@ -674,7 +727,8 @@ Section Line.
   Proof.
     intros Hc Hok Hfit. unfold log_line.
     destruct (prefix_items th r) as [th' pre] eqn:Ep. cbn [snd].
-    pose proof (items_text th r Hc (proj1 Hok)) as Ht. pose proof (items_ok th r Hok) as Hi.
+    pose proof (items_text th r Hc (proj1 Hok) (proj2 (proj2 (proj2 (proj2 Hok))))) as Ht.
+    pose proof (items_ok th r Hok) as Hi.
     rewrite Ep in Ht, Hi. cbn [snd] in Ht, Hi.
     assert (Hinv : inv (empty kSmallBuffer)) by (unfold inv, empty, flen; cbn; pose proof ksmall_pos; lia).
     destruct (run_ok fmt_g fmt_g_len _ _ Hinv Hi) as [b [E [Hcap [Hb Hd]]]].
@@ -690,7 +744,8 @@ Section Line.
     let th' := fst (log_line fmt_g th r) in
     lastSecond th' = lq_seconds r /\ firstn 17 (t_time th') = time_text (lq_dt r).
   Proof.
-    intros Hc Hdt. unfold log_line, prefix_items, format_time. cbn [fst].
+    intros Hc Hdt. pose proof (format_time_fst th r Hdt) as Hf.
+    unfold log_line, prefix_items. destruct (format_time th r) as [th1 tm]. cbn [fst] in *. subst th1.
     destruct (Z.eqb_spec (lq_seconds r) (lastSecond th)) as [E|E]; cbn [fst lastSecond t_time].
     - split; [congruence|exact (Hc E)].
     - split; [reflexivity|]. apply firstn_all2. rewrite time_text_length by exact Hdt. lia.
